@@ -4,6 +4,7 @@
    Model/SatObjects.v (BufferedSatSolver = [buf_step]), Model/SatSpec.v, Model/Pipe.v. *)
 From Crusta Require Import Sat.Cnf Sat.Dimacs Sat.Dpll Model.SatObjects Model.SatSpec Model.Pipe.
 From Crusta Require Import Proofs.DimacsProofs Proofs.ReplyProofs Proofs.SatObjProofs Proofs.PipeProofs.
+From Crusta Require Proofs.Clauses2.
 Import ListNotations.
 
 (* ---------------------------------------------------------------- (a) the instance *)
@@ -145,6 +146,19 @@ Example C16_example_truncated :
   reply_parse (length m) (render_sat false [] [] [] m) = RSat m.
 Proof. vm_compute. repeat split; reflexivity. Qed.
 
+(* "The call returns whatever the volume of the solver's output", in plain words.  [Clauses2.path c s l]:
+   l is a run from s - each state is a successor ([steps c]) of the previous one.  With the parent
+   draining stdout before waiting (the code as it is), for EVERY child program (any number of reads
+   and of writes of any size), instance size and pipe capacities >= 1: every run from the initial
+   state has at most [measure (init c)] transitions, and wherever it stands it has either reached a
+   final state (both parent actions done: exec_solver returns) or can be continued.  So every run
+   that cannot be continued has returned, and there is no infinite run. *)
+Theorem C16_call_returns : forall c, ord c = DrainThenWait -> 1 <= cap_in c -> 1 <= cap_out c ->
+  forall l, Clauses2.path c (init c) l ->
+    length l <= measure (init c) /\
+    (final (last l (init c)) = true \/ exists s', In s' (steps c (last l (init c)))).
+Proof. exact Clauses2.call_returns. Qed.
+
 Print Assumptions C16_instance_wellformed.
 Print Assumptions C16_strict_parser_roundtrip.
 Print Assumptions C16_strict_parser_sound.
@@ -160,3 +174,4 @@ Print Assumptions C16_cut_literal_not_zero.
 Print Assumptions C16_pipe_never_stuck.
 Print Assumptions C16_pipe_runs_finite.
 Print Assumptions C16_wait_then_drain_can_hang.
+Print Assumptions C16_call_returns.
